@@ -20,6 +20,8 @@ LEVEL = "exploration"
 CHARS = {"plain": "x", "dq": '"', "sq": "'", "bs": "\\", "lf": "\n", "cr": "\r", "hash": "#", "lbrace": "{", "rbrace": "}", "nonascii": "é", "usep": "\u2028",
          # further members of the usep class (each placed alone and inside plain text)
          "usep_ps": "\u2029", "usep_nel": "\x85", "usep_vt": "\x0b", "usep_ff": "\x0c", "usep_fs": "\x1c", "usep_rs": "\x1e"}
+# characters outside the Basic Multilingual Plane: one code point in Python, a surrogate PAIR in JSON / UTF-16 escapes
+CHARS["astral"] = "\U0001F516"
 USEP_MORE = ["usep_ps", "usep_nel", "usep_vt", "usep_ff", "usep_fs", "usep_rs"]
 
 
@@ -30,6 +32,15 @@ def base_doc() -> dict:
         "servers": [{"url": "https://api.example.com"}],
         "tags": [{"name": "things", "description": "tag text"}],
         "paths": {
+            "/things": {
+                "get": {
+                    # MANY optional query parameters on one operation (size thresholds of the emitters)
+                    "operationId": "listThings",
+                    "tags": ["things"],
+                    "parameters": [{"name": f"opt{i:02d}", "in": "query", "schema": {"type": "string"}} for i in range(12)] + [{"name": "X-Many", "in": "header", "schema": {"type": "string"}}],
+                    "responses": {"200": jresp({"type": "array", "items": ref("Thing")})},
+                }
+            },
             "/things/{thingId}": {
                 "get": {
                     "operationId": "getThing",
@@ -113,6 +124,7 @@ def _tag(d: dict, t: str) -> None:
     d["tags"][0]["name"] = t
     for m in ("get", "post", "put"):
         d["paths"]["/things/{thingId}"][m]["tags"] = [t]
+    d["paths"]["/things"]["get"]["tags"] = [t]
 
 
 def _disc_value(d: dict, t: str) -> None:
@@ -154,6 +166,8 @@ POSITIONS: dict[str, tuple[Callable[[dict, str], None], bool]] = {
     "example_text": (lambda d, t: d["components"]["schemas"]["Thing"]["properties"]["name"].__setitem__("example", t), False),
     "query_param_name": (_query_name, True),
     "header_param_name": (_header_name, True),
+    # ... and on an operation with MANY optional query parameters (11th of 12)
+    "query_param_name_many": (lambda d, t: d["paths"]["/things"]["get"]["parameters"][10].__setitem__("name", t), True),
     # the same text positions on an operation with SEVERAL request content types (a different generator path)
     "query_param_name_multi": (lambda d, t: _put(d)["parameters"][1].__setitem__("name", t), False),
     "header_param_name_multi": (lambda d, t: _put(d)["parameters"][2].__setitem__("name", t), False),
@@ -174,7 +188,7 @@ POSITIONS: dict[str, tuple[Callable[[dict, str], None], bool]] = {
 
 # positions whose text also becomes an identifier get a benign prefix, so that the derived identifier is never empty
 # (empty / invalid derived identifiers are property C20's business, not C15's)
-NAME_PREFIX = {p: "q" for p in ("property_name", "query_param_name", "header_param_name", "query_param_name_multi", "header_param_name_multi", "discriminator_property", "enum_value", "discriminator_value", "tag_name")}
+NAME_PREFIX = {p: "q" for p in ("property_name", "query_param_name", "header_param_name", "query_param_name_many", "query_param_name_multi", "header_param_name_multi", "discriminator_property", "enum_value", "discriminator_value", "tag_name")}
 
 
 # text that LOOKS like Python constructs (all "plain" for the lexical automaton, hostile for line-based text scanners)
@@ -236,7 +250,7 @@ def run(chk: Check) -> None:
             inner.append(["plain"] + list(pl) + ["plain"])
     extra += inner
     extra += [[k] for k in CODELIKE]
-    for u in USEP_MORE:
+    for u in USEP_MORE + ["astral"]:
         extra += [[u], ["plain", u, "plain"]]
     have = {json.dumps(p["payload"]) for p in chosen}
     for e in extra:
@@ -298,7 +312,7 @@ def run(chk: Check) -> None:
 
     obs = {jid: observe(jid) for jid, m in meta.items() if not m["baseline"]}
     # culprit attribution: the hostile class of the payload with the highest failure rate at this position in this run
-    ORDER = ["dq", "sq", "bs", "lf", "cr", "lbrace", "rbrace", "hash", "nonascii", "usep"] + USEP_MORE + sorted(CODELIKE)
+    ORDER = ["dq", "sq", "bs", "lf", "cr", "lbrace", "rbrace", "hash", "nonascii", "usep"] + USEP_MORE + ["astral"] + sorted(CODELIKE)
     stats: dict[tuple, list] = {}
     for jid, o in obs.items():
         m = meta[jid]
